@@ -230,4 +230,154 @@ theorem rsRun_sound {H : Bytes → Bytes} (hinj : Function.Injective H) (hlen : 
         · exact h x h1
         · exact h1
 
+/-! ### completion: a finished restore has imported every chunk -/
+
+/-- The node hashes chunk `i` of the checkpoint `cs` imports. -/
+def imported (H : Bytes → Bytes) (root : Bytes) (cs : List (List (Option Bytes))) (i : Nat) : List Bytes :=
+  match cs[i]? with
+  | none => []
+  | some es =>
+    match verifyProof H root { v := 0, untrusted := root, entries := es } with
+    | .ok s => s.nodeHashes H
+    | .error _ => []
+
+/-- Digest binding (collision resistance of the chunk digest, a hypothesis): bytes whose digest
+matches entry `idx` of the metadata decode to the entries of chunk `idx` of the checkpoint. -/
+def HonestEvent (cs : List (List (Option Bytes))) : REvent → Prop
+  | .chunk idx c => c.digestOk = true → c.entries = cs[idx]?
+  | .start n => n = cs.length
+  | .abort => True
+
+/-- Invariant of a session: whatever is no longer pending has been imported. -/
+def RInv (H : Bytes → Bytes) (root : Bytes) (cs : List (List (Option Bytes))) (rs : Restorer) : Prop :=
+  ∀ n, rs.current = some n → n = cs.length ∧
+    ∀ i, i < n → i ∈ rs.pending ∨ ∀ x ∈ imported H root cs i, x ∈ rs.db
+
+theorem restoreChunkM_mono {H : Bytes → Bytes} {root : Bytes} {db db' : List Bytes} {c : ChunkData}
+    (h : restoreChunkM H root db c = .ok db') : ∀ x ∈ db, x ∈ db' := by
+  unfold restoreChunkM at h
+  split at h
+  · exact absurd h (by simp)
+  · split at h
+    · exact absurd h (by simp)
+    · split at h
+      · exact absurd h (by simp)
+      · simp only [Except.ok.injEq] at h
+        subst h
+        intro x hx
+        exact List.mem_append_right _ hx
+
+theorem restoreChunkM_imports {H : Bytes → Bytes} {root : Bytes} {db db' : List Bytes} {c : ChunkData}
+    (cs : List (List (Option Bytes))) (idx : Nat) (hh : c.digestOk = true → c.entries = cs[idx]?)
+    (h : restoreChunkM H root db c = .ok db') : ∀ x ∈ imported H root cs idx, x ∈ db' := by
+  unfold restoreChunkM at h
+  split at h
+  · exact absurd h (by simp)
+  · next hd =>
+    have hd' : c.digestOk = true := by simpa using hd
+    have he := hh hd'
+    split at h
+    · exact absurd h (by simp)
+    · next es hes =>
+      split at h
+      · exact absurd h (by simp)
+      · next s hv =>
+        simp only [Except.ok.injEq] at h
+        subst h
+        intro x hx
+        unfold imported at hx
+        rw [← he, hes] at hx
+        simp only [hv] at hx
+        exact List.mem_append_left _ hx
+
+theorem rinv_step {H : Bytes → Bytes} {root : Bytes} {cs : List (List (Option Bytes))} {rs : Restorer}
+    (hi : RInv H root cs rs) (ev : REvent) (hev : HonestEvent cs ev) : RInv H root cs (rsStep H root rs ev) := by
+  cases ev with
+  | start n =>
+    simp only [rsStep, rsStart]
+    cases hc : rs.current with
+    | some m => simp only; exact hi
+    | none =>
+      simp only
+      intro n' hn'
+      simp only [Option.some.injEq] at hn'
+      subst hn'
+      refine ⟨hev, fun i hi' => Or.inl (by simpa using hi')⟩
+  | abort =>
+    intro n hn
+    simp [rsStep, rsAbort] at hn
+  | chunk idx c =>
+    simp only [rsStep]
+    unfold rsRestoreChunk
+    cases hc : rs.current with
+    | none => simp only; exact hi
+    | some n =>
+      obtain ⟨hn, hall⟩ := hi n hc
+      simp only
+      by_cases h1 : (!rs.pending.contains idx) = true
+      · simp only [h1, if_true]; exact hi
+      · have h1' : (!rs.pending.contains idx) = false := by simpa using h1
+        simp only [h1']
+        by_cases h2 : idx ≥ n
+        · simp only [h2, if_true]; exact hi
+        · simp only [h2, if_false]
+          cases hr : restoreChunkM H root rs.db c with
+          | error e' =>
+            cases e' <;> simp only <;> first | exact hi | (intro n' hn'; simp [rsAbort] at hn')
+          | ok db' =>
+            have hmono := restoreChunkM_mono hr
+            have himp := restoreChunkM_imports cs idx hev hr
+            simp only [Bool.false_eq_true, if_false]
+            split
+            · intro n' hn'; simp at hn'
+            · intro n' hn'
+              simp only [Option.some.injEq] at hn'
+              subst hn'
+              refine ⟨hn, fun i hi' => ?_⟩
+              by_cases hidx : i = idx
+              · right; rw [hidx]; exact himp
+              · rcases hall i hi' with hp | hd
+                · left; simp [hp, hidx]
+                · right; intro x hx; exact hmono x (hd x hx)
+
+/-- When `RestoreChunk` reports completion, every chunk of the checkpoint has been imported. -/
+theorem rs_done_imported {H : Bytes → Bytes} {root : Bytes} {cs : List (List (Option Bytes))} {rs : Restorer}
+    (hi : RInv H root cs rs) (idx : Nat) (c : ChunkData) (hev : c.digestOk = true → c.entries = cs[idx]?)
+    (hdone : (rsRestoreChunk H root rs idx c).1 = .ok true) :
+    ∀ i, i < cs.length → ∀ x ∈ imported H root cs i, x ∈ (rsRestoreChunk H root rs idx c).2.db := by
+  unfold rsRestoreChunk at hdone ⊢
+  cases hc : rs.current with
+  | none => simp [hc] at hdone
+  | some n =>
+    obtain ⟨hn, hall⟩ := hi n hc
+    simp only [hc] at hdone ⊢
+    by_cases h1 : (!rs.pending.contains idx) = true
+    · rw [if_pos h1] at hdone; exact absurd hdone (by simp)
+    · have h1' : (!rs.pending.contains idx) = false := by simpa using h1
+      simp only [h1'] at hdone ⊢
+      by_cases h2 : idx ≥ n
+      · rw [if_neg (by simp), if_pos h2] at hdone; exact absurd hdone (by simp)
+      · simp only [h2, if_false] at hdone ⊢
+        cases hr : restoreChunkM H root rs.db c with
+        | error e' => rw [hr] at hdone; cases e' <;> simp at hdone
+        | ok db' =>
+          have hmono := restoreChunkM_mono hr
+          have himp := restoreChunkM_imports cs idx hev hr
+          rw [hr] at hdone
+          simp only [Bool.false_eq_true, if_false] at hdone ⊢
+          split at hdone
+          · next hemp =>
+            rw [if_pos hemp]
+            intro i hi' x hx
+            simp only
+            by_cases hidx : i = idx
+            · rw [hidx] at hx; exact himp x hx
+            · rcases hall i (by omega) with hp | hd
+              · exfalso
+                have : i ∈ List.filter (fun x => decide (x ≠ idx)) rs.pending := by simp [hp, hidx]
+                rw [List.isEmpty_iff.1 hemp] at this
+                simp at this
+              · exact hmono x (hd x hx)
+          · simp at hdone
+
 end OasisProofs.MkvsChunk
